@@ -354,9 +354,11 @@ def interpret_tf(tf: bytes, teletext: bool, cct: str):
         pen.underline = True
       elif c == 0x83:
         pen.underline = False
-      elif c in (0x84, 0x85):
-        pen.bg = None                # boxing: how a box maps to a background colour is not stated
+      elif c == 0x84:
+        pen.bg = None                # boxing on: how a box maps to a background colour is not stated
         notes.add("boxing")
+      elif c == 0x85:
+        pen.bg = "transparent"       # boxing off: whatever a box is, the following characters have none
       if c == 0x0D:
         notes.add("double-height")
       kind = "h" if (teletext and c in SPACING_TELETEXT) else "s"
